@@ -29,6 +29,10 @@ fn build(d: &D, tape: &[u8], offset: usize, sh: &Shared) -> Term {
             Some(t) => t,
             None => build_plan(d, &mut tp),
         }
+    } else if tp.next() % 6 == 0 {
+        sh.class("history/constructed-on-other-thread");
+        let off = tp.next() as usize;
+        std::thread::scope(|s| std::thread::Builder::new().stack_size(64 << 20).spawn_scoped(s, || build_plan(d, &mut Tape::new(tape, off))).unwrap().join().unwrap())
     } else {
         build_plan(d, &mut tp)
     };
